@@ -418,7 +418,8 @@ fn two_messages_in_one_buffer(world: &mut World, before: &ModelState, i: usize, 
     }
     // (refused while looking past the terminator: the last unit of the first message may or may
     // not have run)
-    let refused = matches!(&o.result, Err(e) if is_command_error(e.code)) && o.calls.len() <= p1.calls.len() && o.calls.len() + 1 >= p1.calls.len();
+    // (... or, with an implementation that lexes the whole buffer first, none of it)
+    let refused = matches!(&o.result, Err(e) if is_command_error(e.code)) && o.calls.len() <= p1.calls.len();
     let mut comb = p1.clone();
     if !refused {
         let shift = s1.msg.units.len();
